@@ -244,8 +244,11 @@ var c32Pool struct {
 	err error
 }
 
-func c32SimpleBytes(id uint32, name string) ([]byte, error) {
-	key := fmt.Sprintf("%d|%s", id, name)
+// c32SimpleBytes returns a tiny simple shard for (id, name). The copies used
+// in the trash have different content than the ones used in the index, so a
+// stale trashed copy overwriting an indexed shard is visible to the oracle.
+func c32SimpleBytes(id uint32, name string, version string) ([]byte, error) {
+	key := fmt.Sprintf("%d|%s|%s", id, name, version)
 	c32Pool.mu.Lock()
 	defer c32Pool.mu.Unlock()
 	if b, ok := c32Pool.simple[key]; ok {
@@ -255,7 +258,7 @@ func c32SimpleBytes(id uint32, name string) ([]byte, error) {
 	if err != nil {
 		return nil, err
 	}
-	if err := sb.AddFile("f.txt", []byte("content of "+name+"\n")); err != nil {
+	if err := sb.AddFile("f.txt", []byte("content of "+name+" "+version+"\n")); err != nil {
 		return nil, err
 	}
 	var buf bytes.Buffer
@@ -350,7 +353,7 @@ func c32Materialize(c *c32Case, dir string) error {
 		return err
 	}
 	for _, s := range c.Simple {
-		b, err := c32SimpleBytes(s.ID, s.Name)
+		b, err := c32SimpleBytes(s.ID, s.Name, "indexed")
 		if err != nil {
 			return err
 		}
@@ -373,7 +376,7 @@ func c32Materialize(c *c32Case, dir string) error {
 		os.Chtimes(p, mt, mt)
 	}
 	for _, s := range c.Trash {
-		b, err := c32SimpleBytes(s.ID, s.Name)
+		b, err := c32SimpleBytes(s.ID, s.Name, "trashed")
 		if err != nil {
 			return err
 		}
@@ -717,10 +720,12 @@ func runC32(rec *kit.Recorder, c c32Case) error {
 		if err != nil {
 			return kit.Fail("unreadable", "before round %d: %v", i, err)
 		}
-		if !c32Domain(before) {
-			// left the input domain (never observed; counted, not judged)
+		if i > 0 && !c32Domain(before) {
+			// A previous cleanup produced a directory outside the domain the
+			// generator is restricted to (never observed on the pinned tree).
+			// Counted; the following rounds are still judged by the clauses,
+			// since the history started inside the domain.
 			rec.Label("domain:left-after-cleanup")
-			break
 		}
 		assigned := map[uint32]bool{}
 		for _, id := range r.Assigned {
